@@ -95,12 +95,13 @@ func Clients() (*world.World, *world.Chain) {
 	// ETH (chain id 4): a fork and a branch switch, an orphan
 	hdr := map[string]*ethtypes.Header{}
 	g := c10.EthHeader(nil, "G", nil)
-	g.Time = uint64(w.Now.Unix()) - 1000
+	g.Time = uint64(w.Now.Unix()) - 5000
 	hdr["G"] = g
 	gp := c10.ToProto(g)
 	Proposal(c, w, "eth-cp", &ethclient.ClientState{Header: *gp, ChainId: 4, ContractAddress: common.HexToAddress("0x20000001").Bytes(), TrustingPeriod: 10_000_000_000, BlockDelay: 1},
 		&ethclient.ConsensusState{Timestamp: gp.Time, Height: gp.Height, Root: gp.Root})
-	for _, n := range [][2]string{{"A1", "G"}, {"B1", "G"}, {"A2", "A1"}, {"B2", "B1"}, {"A3", "A2"}, {"X9", "A7"}} {
+	// (L4 follows its parent after more than 909 s: the difficulty calculation reaches its -99 clamp)
+	for _, n := range [][2]string{{"A1", "G"}, {"B1", "G"}, {"A2", "A1"}, {"B2", "B1"}, {"A3", "A2"}, {"X9", "A7"}, {"L4", "A3"}, {"A5", "L4"}} {
 		p, ok := hdr[n[1]]
 		if !ok {
 			h := c10.EthHeader(hdr["G"], n[0], nil)
@@ -109,6 +110,9 @@ func Clients() (*world.World, *world.Chain) {
 			continue
 		}
 		h := c10.EthHeader(p, n[0], nil)
+		if n[0] == "L4" {
+			h.Time = p.Time + 1000
+		}
 		hdr[n[0]] = h
 		Update(c, w, "eth-cp", c10.ToProto(h), "r1")
 	}
